@@ -100,6 +100,17 @@ func init() {
 			return mk(ex.ctx.Or(ex.term(args[0]), ex.term(args[1])), types.Bool)
 		},
 
+		"(*crypto/internal/fips140/sha256.Digest).Reset":     shaReset,
+		"(*crypto/internal/fips140/sha256.Digest).Write":     shaWrite,
+		"(*crypto/internal/fips140/sha256.Digest).Sum":       shaSum,
+		"(*crypto/internal/fips140/sha256.Digest).Size":      func(fr *frame, args []value) value { return 32 },
+		"(*crypto/internal/fips140/sha256.Digest).BlockSize": func(fr *frame, args []value) value { return 64 },
+		"crypto/internal/fips140/sha256.New": func(fr *frame, args []value) value {
+			var cell value = structure{}
+			return &cell
+		},
+		"crypto/internal/boring.Enabled": nil,
+
 		// --- math/rand
 		"(*math/rand.Rand).Int63":   randDraw("Int63", types.Int64, 63, false),
 		"(*math/rand.Rand).Uint32":  randDraw("Uint32", types.Uint32, 32, false),
@@ -237,6 +248,14 @@ func init() {
 		"os.Getenv":                  func(fr *frame, args []value) value { return fr.i.getenv(args[0]) },
 		"os.LookupEnv":               func(fr *frame, args []value) value { v := fr.i.getenv(args[0]); return tuple{v, strLen(v) > 0} },
 		"syscall.Getenv":             func(fr *frame, args []value) value { v := fr.i.getenv(args[0]); return tuple{v, strLen(v) > 0} },
+		"(*os.File).Write":       func(fr *frame, args []value) value { return tuple{len(args[1].([]value)), iface{}} },
+		"(*os.File).WriteString": func(fr *frame, args []value) value { return tuple{strLen(args[1]), iface{}} },
+		"(*os.File).Close":       func(fr *frame, args []value) value { return iface{} },
+		"(*os.File).Sync":        func(fr *frame, args []value) value { return iface{} },
+		"(*log.Logger).Output":   func(fr *frame, args []value) value { return iface{} },
+		"log.Printf":             extNop,
+		"log.Println":            extNop,
+		"log.Print":              extNop,
 		"time.Now":                   func(fr *frame, args []value) value { unmodelled("time.Now"); return nil },
 		"hash/maphash.MakeSeed":      func(fr *frame, args []value) value { return structure{uint64(0x9E3779B97F4A7C15)} },
 		"hash/maphash.String":        func(fr *frame, args []value) value { return fnv64(fr, args[1]) },
@@ -545,8 +564,40 @@ type ufApp struct {
 }
 
 func symxDigest(fr *frame, args []value) value {
+	return fr.i.ex.sha256(args[0].([]value))
+}
+
+// intrinsics for crypto/internal/fips140/sha256.Digest: the written bytes
+// are accumulated in a side table keyed by the Digest's address.
+func shaReset(fr *frame, args []value) value {
 	ex := fr.i.ex
-	in := args[0].([]value)
+	if ex.shaState == nil {
+		ex.shaState = map[*value][]value{}
+	}
+	ex.shaState[args[0].(*value)] = nil
+	return nil
+}
+
+func shaWrite(fr *frame, args []value) value {
+	ex := fr.i.ex
+	if ex.shaState == nil {
+		ex.shaState = map[*value][]value{}
+	}
+	p := args[0].(*value)
+	data := args[1].([]value)
+	ex.shaState[p] = append(ex.shaState[p], data...)
+	return tuple{len(data), iface{}}
+}
+
+func shaSum(fr *frame, args []value) value {
+	ex := fr.i.ex
+	p := args[0].(*value)
+	d := ex.sha256(ex.shaState[p])
+	// appends in place when capacity allows, like the real Sum
+	return append(args[1].([]value), []value(d)...)
+}
+
+func (ex *Exec) sha256(in []value) array {
 	if !containsSymDeep(in) {
 		b := make([]byte, len(in))
 		for k, e := range in {
@@ -554,8 +605,13 @@ func symxDigest(fr *frame, args []value) value {
 		}
 		sum := sha256.Sum256(b)
 		out := make(array, 32)
+		app := ufApp{in: append([]value(nil), in...)}
 		for k := range out {
 			out[k] = sum[k]
+			app.out = append(app.out, ex.ctx.Const(8, uint64(sum[k])))
+		}
+		if len(ex.ufApps) < 64 {
+			ex.ufApps = append(ex.ufApps, app) // so that later symbolic applications are related to it
 		}
 		return out
 	}
